@@ -11,6 +11,24 @@ VERIF = common.VERIF
 TSAN_ENV = dict(TSAN_OPTIONS="halt_on_error=1:exitcode=97:second_deadlock_stack=1:report_signal_unsafe=0")
 
 
+def private_array_line(rng):
+    """a generated crystal definition file loaded into a collection that only the calling thread owns"""
+    names = ["P%d_%s" % (rng.randrange(1000), "".join(rng.choice("abcXYZ_") for _ in range(rng.randint(1, 8)))) for _ in range(rng.randint(1, 12))]
+    names = sorted(set(names), key=names.index)
+    out = ["#F generated\n"]
+    for nm in names:
+        out.append("#S %d %s\n#UCELL %.4f %.4f %.4f %.3f %.3f %.3f\n#N 5\n#L  AtomicNumber  Fraction  X  Y  Z\n" %
+                   (rng.randint(1, 90), nm, rng.uniform(2, 12), rng.uniform(2, 12), rng.uniform(2, 12), rng.choice((90.0, rng.uniform(60, 120))), 90.0, rng.choice((90.0, 120.0))))
+        for _ in range(rng.randint(1, 5)):
+            out.append("%d %.3f %.4f %.4f %.4f\n" % (rng.randint(1, 92), rng.choice((1.0, 0.5)), rng.random(), rng.random(), rng.random()))
+    kind = rng.random()
+    if kind < 0.15 and len(names) > 1:
+        k = rng.choice([i for i, l in enumerate(out) if l.startswith("#S ")])
+        out[k] = out[k].replace("#UCELL", "#XCELL")                  # malformed (no cell): must fail in the same way in every thread
+    out.append("#EOF\n")
+    return calls.line("@private_array", "iss", (rng.randint(0, 6), "".join(out), rng.choice(names + ["zz_private_entry", "absent"])))
+
+
 def work(item):
     exe, src, seed, nmix, per_thread, sdir, tag = item
     st = Stats()
@@ -38,6 +56,10 @@ def work(item):
                 l = rng.choice(shared)
                 lines += [l] * T          # one per thread (round-robin assignment)
                 continue
+            if rng.random() < 0.04:
+                # thread-private collections: a block so that several threads load their own files at the same moment
+                lines += [private_array_line(rng) for _ in range(T)]
+                continue
             fn = rng.choice(fns)
             sw = pool.setdefault(fn, apisweep.sweep(h, desc, vals, fn, 40, True))
             if not sw:
@@ -48,6 +70,11 @@ def work(item):
         if rc0 != 0 or len(serial) != len(lines):
             st.violation("serial-run-failed", dict(mix=mi), "serial reference", err0[-1200:])
             continue
+        for l in serial:
+            if "pa:rv=" in l:
+                st.cls("private_array:" + ("loaded" if "pa:rv=1" in l else "rejected"))
+            elif "pa:no" in l:
+                st.violation("private-array-scenario-broken", dict(mix=mi), "array and file", l[:200])
         for ys in (0, 1 + rng.randrange(1000), 1 + rng.randrange(1000)):
             st.ev()
             out, rc, err = calls.run(exe, "threads:%d:%d" % (T, ys), lines, sdir, tag + "_t", env=TSAN_ENV)
@@ -91,7 +118,8 @@ def run(ctx):
     items = [(exe, b["src"], ctx.seed, nmix, per_thread, ctx.sdir, "w%d" % k) for k in range(5 if quick else 8)]
     ctx.stats.merge(common.pmap(work, items, jobs=5 if quick else 4))
     ctx.rule = ("%d workers x %d generated mixes x 3 yield patterns: T in {8,12,16} threads, %d..%d calls per thread drawn (seeded) from the C03 argument "
-                "classes over every exported function except collection insertion, with blocks of identical queries issued by all threads at once; "
+                "classes over every exported function (insertion only into collections private to the calling thread: init, ReadFile of a generated file, AddCrystal, "
+                "list, lookup, free), with blocks of identical queries issued by all threads at once; "
                 "ThreadSanitizer build (library and harness), barrier start, seeded sched_yield injection in the harness; compared line by line with a "
                 "serial run of the same lists; setlocale observed through -Wl,--wrap. non-trivial = mix run in which >= 2 threads execute "
                 "allocating calls, distinct by (call lists, yield pattern)" % (len(items), nmix, per_thread // 2, per_thread))
